@@ -238,7 +238,7 @@ for f in STRUCT:
 
 LEVEL = 'other'
 EXPLANATION = __doc__
-BOUNDS = ('quick: the 19-segment repeat_init_segment document, every body segment x element position 1..6 x six element fault kinds, every body segment x three structural fault kinds; '
+BOUNDS = ('quick: the 19-segment repeat_init_segment document, every body segment x element position 1..6 x seven element fault kinds (too long, bad code, wrong class, missing required, not used, too many elements, date format other than the one its qualifier announces), every body segment x three structural fault kinds; '
           'thorough: the 834 4010 and 5010 documents as well.')
 OUTSIDE = ('faults in composite components; broken syntax notes (C14) and impossible dates / times by value (C13, C15) are decided there for symbolic values and only localised here through '
            'the wrong_class kind; documents with several sets (sibling sets stay accepted: C05); large documents.')
